@@ -84,6 +84,8 @@ var (
 	cLegacyRefused = simrt.RegisterCounter("probe_rejoin_without_optneg_refused_not_judged")
 	cOddRefused    = simrt.RegisterCounter("probe_unusual_input_refused_not_judged")
 	cBusy          = simrt.RegisterCounter("op_busy_server_many_connections_and_devices")
+	cBare          = simrt.RegisterCounter("configuration_without_kek_label_and_home_netid_callbacks")
+	cDecoy         = simrt.RegisterCounter("configuration_other_handlers_exist_in_the_process")
 	cHexPrefix     = simrt.RegisterCounter("probe_hex_members_with_0x_prefix")
 	fClientGone    = simrt.RegisterCounter("fault_client_disconnected_while_storage_works")
 	fProvision     = simrt.RegisterCounter("fault_device_provisioned_after_first_requests")
@@ -287,6 +289,7 @@ type world struct {
 	faults  bool
 	nNS     int
 	allSlow int64
+	bare    bool // the handler is configured with the device-key callback only
 }
 
 var theWorld *world
@@ -728,6 +731,13 @@ func build(sw *sim.World) {
 	}
 	w.faults = simrt.Choose(3) != 0
 	w.nNS = nNS
+	// a join-server configured with the device-key callback only: no KEK for
+	// anybody, no label for any device (session keys travel in the clear), no
+	// home NetID service
+	w.bare = !busy && simrt.Choose(8) == 1
+	if w.bare {
+		simrt.Count(cBare)
+	}
 	for i := 0; i < nDev; i++ {
 		rec := &devRec{idx: i, known: true}
 		setKnown(i, true)
@@ -747,7 +757,7 @@ func build(sw *sim.World) {
 			rec.dev.AppKey = rec.dev.NwkKey
 		}
 		r.Fill(rec.homeNet[:])
-		if r.Intn(2) == 0 {
+		if r.Intn(2) == 0 && !w.bare {
 			rec.asLabel = fmt.Sprintf("as-%d", i)
 			if r.Intn(5) != 0 {
 				w.keks[rec.asLabel] = r.Bytes([]int{16, 24, 32}[r.Intn(3)])
@@ -792,7 +802,7 @@ func build(sw *sim.World) {
 		case 1:
 			senderIDs[i] = "0x" + senderIDs[i]
 		}
-		if r.Intn(2) == 0 {
+		if r.Intn(2) == 0 && !w.bare {
 			// (whether a join-server canonicalises the NetID before looking the
 			// KEK up is not defined: the store answers both spellings)
 			k := r.Bytes([]int{16, 24, 32}[r.Intn(3)])
@@ -800,7 +810,7 @@ func build(sw *sim.World) {
 			w.keks[netIDs[i].String()] = k
 		}
 	}
-	if r.Intn(4) == 0 {
+	if r.Intn(4) == 0 && !w.bare {
 		// a store that answers every label, also the empty one, with a default KEK
 		w.keks[""] = r.Bytes(16)
 	}
@@ -826,16 +836,55 @@ func build(sw *sim.World) {
 			}
 		}
 	})
-	h, err := joinserver.NewHandler(joinserver.HandlerConfig{
-		GetDeviceKeysByDevEUIFunc: w.getDeviceKeys,
-		GetKEKByLabelFunc:         w.getKEK,
-		GetASKEKLabelByDevEUIFunc: w.getASLabel,
-		GetHomeNetIDByDevEUIFunc:  w.getHomeNetID,
-	})
+	// other handlers of the same process (another listener, another tenant),
+	// created before and after the one the requests go through, each with a
+	// configuration of its own that serves nobody here
+	nDecoy := 0
+	if simrt.Choose(5) == 1 {
+		nDecoy = 1 + simrt.Choose(2)
+		simrt.Count(cDecoy)
+	}
+	decoy := func(k int) {
+		kek := r.Bytes(16)
+		called := func(what string) {
+			simrt.Report("j4.foreign-configuration", fmt.Sprintf("a request through one handler called the %s callback another handler of the process was configured with", what))
+		}
+		_, err := joinserver.NewHandler(joinserver.HandlerConfig{
+			GetDeviceKeysByDevEUIFunc: func(lorawan.EUI64) (joinserver.DeviceKeys, error) {
+				called("device keys")
+				return joinserver.DeviceKeys{}, joinserver.ErrDevEUINotFound
+			},
+			GetKEKByLabelFunc: func(string) ([]byte, error) { called("KEK"); return kek, nil },
+			GetASKEKLabelByDevEUIFunc: func(lorawan.EUI64) (string, error) {
+				called("AS KEK label")
+				return fmt.Sprintf("decoy-%d", k), nil
+			},
+			GetHomeNetIDByDevEUIFunc: func(lorawan.EUI64) (lorawan.NetID, error) {
+				called("home NetID")
+				return lorawan.NetID{0xde, 0xc0, byte(k)}, nil
+			},
+		})
+		if err != nil {
+			panic(err)
+		}
+	}
+	if nDecoy > 0 {
+		decoy(0)
+	}
+	cfg := joinserver.HandlerConfig{GetDeviceKeysByDevEUIFunc: w.getDeviceKeys}
+	if !w.bare {
+		cfg.GetKEKByLabelFunc = w.getKEK
+		cfg.GetASKEKLabelByDevEUIFunc = w.getASLabel
+		cfg.GetHomeNetIDByDevEUIFunc = w.getHomeNetID
+	}
+	h, err := joinserver.NewHandler(cfg)
 	if err != nil {
 		panic(err)
 	}
 	w.handler = h
+	if nDecoy > 1 {
+		decoy(1)
+	}
 	sw.Notef("W-JOIN: %d devices, %d network-server tasks, faults=%v", nDev, nNS, w.faults)
 	for i := 0; i < nNS; i++ {
 		i := i
@@ -948,6 +997,9 @@ func nsTask(w *world, id int, netID lorawan.NetID, senderID string, n int, sub u
 			rq.kind = 1 + r.Intn(3)
 		default:
 			rq.kind = 4
+			if w.bare {
+				rq.kind = 0 // (no home NetID service configured)
+			}
 		}
 		rq.joinEUI = rq.rec.dev.JoinEUI
 		rq.nonce = uint16(r.Intn(1 << 16))
